@@ -31,6 +31,10 @@ type DAGService struct {
 	local   bool
 
 	ba *adder.BlockAdder
+
+	// first error returned by Add(). The importer does not check all
+	// of them, so Finalize() does.
+	addErr error
 }
 
 // New returns a new Adder with the given rpc Client. The client is used
@@ -62,11 +66,19 @@ func (dgs *DAGService) Add(ctx context.Context, node ipld.Node) error {
 		}
 	}
 
-	return dgs.ba.Add(ctx, node)
+	err := dgs.ba.Add(ctx, node)
+	if err != nil && dgs.addErr == nil {
+		dgs.addErr = err
+	}
+	return err
 }
 
 // Finalize pins the last Cid added to this DAGService.
 func (dgs *DAGService) Finalize(ctx context.Context, root cid.Cid) (cid.Cid, error) {
+	if dgs.addErr != nil {
+		return root, dgs.addErr
+	}
+
 	// Cluster pin the result
 	rootPin := api.PinWithOpts(root, dgs.pinOpts)
 	rootPin.Allocations = dgs.dests
